@@ -9,7 +9,8 @@ CFG = dict(
          "the same object, optional writing), `rnd` (every gate site gated, a seeded scheduler picks which parked goroutine moves next; 1-4 Stops, "
          "requests, self-termination by error block), `stopAt i` (Stop issued while Start is parked between two of its steps), `reuse` (Stop parked "
          "before RunDoneWait across a restart), `selfW` (source ends by itself while writing), `udpFail`/`udpBusy` (failed Abaco Start), `startRunFail` (StartRun of the scripted source fails "
-         "1-2 times AFTER RunDoneActivate, then a Start succeeds on the same object, optionally a request, then 1-2 Stops). After every failed Start the real "
+         "1-2 times AFTER RunDoneActivate, then a Start succeeds on the same object, optionally a request, then 1-2 Stops). `stopDecided` (a Stop parked INSIDE its lock section "
+         "after reading Active, site stop.onActive, while the source ends by itself; then a Start on the same object). After every failed Start the real "
          "object's completion barrier is observed (runDone.Wait() returns? run-done channel closed?) and judged: Inactive <-> counter 0. The logged "
          "trace must be a run of the Lean transition system; return values, GetState(), goroutine census, writing flag and UDP-port re-bindability "
          "must equal the model's and satisfy the property oracle; a watchdog turns a hang into the output `hang 1`. Non-trivial = at least two "
@@ -34,7 +35,8 @@ MANIFEST = dict(
     text="PARTIAL (concurrency skeleton). Lean theorems over a labelled transition system of the synchronisation skeleton of Start / CoreLoop / AnySource.Stop / "
          "producers / runLaterIfActive (threads: Start callers, k concurrent Stop callers as counters over program points, core loop, producer, RPC callers; "
          "shared: source state, abort and nextBlock channels, runDone counter, writing flag, resources of Sample), for ALL event sequences (any k, any number of "
-         "runs, any schedule): lc_inv (state <-> wait-group counter <-> thread program points; wait group never negative; no channel closed twice), "
+         "runs, any schedule): lc_inv (state <-> wait-group counter <-> thread program points; wait group never negative; no channel closed twice), C10_stop_decision_atomic (a Stop between "
+         "its decision 'Active' and its write 'Stopping' holds the state lock: no other lock section is enabled, the write lands on an Active source), "
          "C10_no_stuck_state (a call in flight => some non-environment step enabled), C10_stop_measure / C10_stop_bounded (a natural-number measure strictly "
          "decreases on every step of the shut-down => every Stop returns under a fair schedule), C10_after_stops_inactive, C10_failed_start_restartable (failure before RunDoneActivate), C10_failed_startrun_restartable (failure after it: activation undone), "
          "C10_restart; C10_no_crash / C10_wait_own_run are proved under the environment discipline E (Start and Stop calls do not overlap) and their unrestricted "
@@ -54,6 +56,8 @@ THEOREMS = [
     ("DastardV.Props.C10", "DastardV.C10.lc_inv"),
     ("DastardV.Props.C10", "DastardV.C10.lc_inv_wg_nonneg"),
     ("DastardV.Props.C10", "DastardV.C10.lc_inv_no_double_close"),
+    ("DastardV.Props.C10", "DastardV.C10.C10_stop_decision_atomic"),
+    ("DastardV.Props.C10", "DastardV.C10.C10_switch_from_active"),
     ("DastardV.Props.C10", "DastardV.C10.C10_no_stuck_state"),
     ("DastardV.Props.C10", "DastardV.C10.C10_stop_measure"),
     ("DastardV.Props.C10", "DastardV.C10.C10_stop_progress"),
